@@ -125,6 +125,7 @@ def gen_descs(ctx):
     a = tfimpl.dy(rng, -4, 4)
     lo = a if bmode in ("lo", "both") else None
     hi = a + rng.choice([0.0, 1.0, 4.0]) if bmode in ("hi", "both") else None
+    lo, hi = tfimpl.zero_bound(rng, lo, hi)
     klass = rng.choice(["random", "random", "ties", "zeros", "far"])
     W = rand_weights(rng, n, units, klass)
     out.append(dict(kind="cat", n=n, units=units, pairs=pairs, lo=lo, hi=hi, W=W, wclass=klass))
